@@ -84,9 +84,14 @@ def _create_new_header(
 
     # Verify that the result contains all ReuseInfo.
     new_reuse_info = extract_reuse_info(result)
-    if reuse_info.copyright_lines != new_reuse_info.copyright_lines or set(
-        map(str, reuse_info.spdx_expressions)
-    ) != set(map(str, new_reuse_info.spdx_expressions)):
+    # (A template need not render contributors, but a contributor that is read
+    # back differently from how it was given would be recorded wrongly.)
+    if (
+        reuse_info.copyright_lines != new_reuse_info.copyright_lines
+        or set(map(str, reuse_info.spdx_expressions))
+        != set(map(str, new_reuse_info.spdx_expressions))
+        or not new_reuse_info.contributor_lines <= reuse_info.contributor_lines
+    ):
         _LOGGER.debug(
             _(
                 "generated comment is missing copyright lines or license"
